@@ -28,6 +28,11 @@
 //	                                                        pure external function)
 //	*rand.Rand                                       dropped; only r.Int63n(e) may be called
 //	error (last result)                              result type becomes Option _ ; error = none
+//	system.IP, netip.Addr                            abstract types IPRec, Addr (translate_ext.go)
+//
+// Extensions (parallel assignment, shadowing in nested blocks, abstract system.IP / netip.Addr
+// values with their fields and methods as uninterpreted functions, unrolled `for … range` over a
+// literal slice of method values): see the header of translate_ext.go.
 //
 // Function shape
 //
@@ -60,7 +65,9 @@
 //	if p == nil { …; return … }  (p *string)   match p with | none => … | some p_val => rest
 //	                                           (`*p` is `p_val` in the rest, unsupported elsewhere)
 //	panic(…)                                   none (the result type becomes Option _)
-//	A declaration that shadows a visible variable or parameter is unsupported.
+//	A declaration that shadows a variable or parameter of the SAME block is unsupported; one that
+//	shadows a variable of an enclosing block makes that variable unusable in everything translated
+//	after the nested block (translate_ext.go).
 //	Go identifiers that are Lean keywords are emitted as «name»; identifiers that would capture a
 //	name the generated text uses (second, some, decide, …) are unsupported.
 //	Everything else (for, range, select, go, defer, goto, labels, calls as statements, …) is
@@ -161,6 +168,10 @@ var whitelist = []transSpec{
 	{dir: "internal/config", fn: "parseDuration", lean: "parseDuration", prop: "C02"},
 	{dir: "internal/corerad", fn: "listener.receiveRetry", lean: "receiveRetry", prop: "C09", frag: true},
 	{dir: "internal/system", fn: "Dialer.init", lean: "Dialer_init", prop: "C10", frag: true},
+	{dir: "internal/corerad", fn: "checkDurations", lean: "checkDurations", prop: "C12"},
+	{dir: "internal/corerad", fn: "equalLifetimes", lean: "equalLifetimes", prop: "C12"},
+	{dir: "internal/plugin", fn: "isStable", lean: "isStable", prop: "C14"},
+	{dir: "internal/plugin", fn: "betterRDNSS", lean: "betterRDNSS", prop: "C14"},
 }
 
 // ---------------------------------------------------------------------------------------------
@@ -179,6 +190,10 @@ const (
 	tRand  // *rand.Rand
 	tClock // func() time.Time
 	tErr
+	tIP       // system.IP: an opaque record (Lean type variable IPRec), translate_ext.go
+	tAddr     // netip.Addr: an opaque value (Lean type variable Addr)
+	tFn       // the variable of an unrolled `for … range []func(netip.Addr) bool{…}`
+	tShadowed // a variable hidden by a declaration of the same name in a nested block that has ended
 )
 
 func (t ty) lean() string {
@@ -195,6 +210,10 @@ func (t ty) lean() string {
 		return "String"
 	case tOptStr:
 		return "Option String"
+	case tIP:
+		return "IPRec"
+	case tAddr:
+		return "Addr"
 	}
 	return "?"
 }
@@ -214,7 +233,9 @@ func (t ty) zero() string {
 func (t ty) numeric() bool { return t == tInt || t == tDur }
 
 // value: a type whose values the translation can bind with `let`
-func (t ty) value() bool { return t == tInt || t == tDur || t == tTime || t == tBool || t == tStr }
+func (t ty) value() bool {
+	return t == tInt || t == tDur || t == tTime || t == tBool || t == tStr || t == tIP || t == tAddr
+}
 
 var intKinds = map[string]bool{"int": true, "int8": true, "int16": true, "int32": true, "int64": true,
 	"uint": true, "uint8": true, "uint16": true, "uint32": true, "uint64": true}
@@ -236,6 +257,10 @@ func goType(e ast.Expr) ty {
 		return tRand
 	case "error":
 		return tErr
+	case "system.IP":
+		return tIP
+	case "netip.Addr":
+		return tAddr
 	}
 	if id, ok := e.(*ast.Ident); ok && intKinds[id.Name] {
 		return tInt
@@ -259,7 +284,7 @@ var leanKeywords = map[string]bool{}
 func init() {
 	for _, n := range strings.Fields(`ns us ms second minute hour infinity goDiv goMod roundDur truncateDur
 		some none decide true false True False Int Dur Time Bool String Option Nat Prop Type Sort Unit
-		Min Max Corerad time_ParseDuration parseDuration`) {
+		Min Max Corerad time_ParseDuration parseDuration IPRec Addr`) {
 		reservedNames[n] = true
 	}
 	for _, n := range strings.Fields(`at end from fun let in do then open def theorem match with have show by where
@@ -290,6 +315,9 @@ type pkg struct {
 	structs map[string]*ast.StructType
 	funcs   map[string]*ast.FuncDecl // "name" or "Recv.name"
 	fileOf  map[*ast.FuncDecl]string
+	repo    string
+	imports map[string]map[string]string // file → local package name → import path
+	nstruct map[string]int               // number of declarations of a struct type (build-tagged files)
 }
 
 var pkgCache = map[string]*pkg{}
@@ -304,7 +332,8 @@ func loadPkg(repo, dir string) (*pkg, error) {
 		return nil, err
 	}
 	p := &pkg{dir: dir, consts: map[string]constDecl{}, dup: map[string]bool{}, structs: map[string]*ast.StructType{},
-		funcs: map[string]*ast.FuncDecl{}, fileOf: map[*ast.FuncDecl]string{}}
+		funcs: map[string]*ast.FuncDecl{}, fileOf: map[*ast.FuncDecl]string{},
+		repo: repo, imports: map[string]map[string]string{}, nstruct: map[string]int{}}
 	var names []string
 	for _, e := range ents {
 		n := e.Name()
@@ -318,6 +347,7 @@ func loadPkg(repo, dir string) (*pkg, error) {
 		if err != nil {
 			return nil, err
 		}
+		p.imports[filepath.ToSlash(filepath.Join(dir, n))] = importsOf(f)
 		for _, d := range f.Decls {
 			switch d := d.(type) {
 			case *ast.GenDecl:
@@ -336,6 +366,7 @@ func loadPkg(repo, dir string) (*pkg, error) {
 						ts := s.(*ast.TypeSpec)
 						if st, ok := ts.Type.(*ast.StructType); ok {
 							p.structs[ts.Name.Name] = st
+							p.nstruct[ts.Name.Name]++
 						}
 					}
 				}
@@ -450,13 +481,17 @@ type callSite struct {
 }
 
 type scope struct {
-	vars    map[string]ty   // visible variables and parameters
-	errVars map[string]bool // error variables known to be non-nil here
-	deref   map[string]bool // *string variables known to be non-nil here (`p_val` is bound to *p)
+	vars    map[string]ty     // visible variables and parameters
+	errVars map[string]bool   // error variables known to be non-nil here
+	deref   map[string]bool   // *string variables known to be non-nil here (`p_val` is bound to *p)
+	level   int               // block nesting depth (0 = parameters and the function's top-level block)
+	lvl     map[string]int    // depth at which each visible variable was declared (absent = 0)
+	fns     map[string]string // tFn variables: the external method the variable is bound to
 }
 
 func (s scope) withDeref(name string) scope {
-	n := scope{vars: s.vars, errVars: s.errVars, deref: map[string]bool{name: true}}
+	n := s
+	n.deref = map[string]bool{name: true}
 	for k := range s.deref {
 		n.deref[k] = true
 	}
@@ -464,16 +499,23 @@ func (s scope) withDeref(name string) scope {
 }
 
 func (s scope) with(name string, t ty) scope {
-	n := scope{vars: make(map[string]ty, len(s.vars)+1), errVars: s.errVars, deref: s.deref}
+	n := s
+	n.vars = make(map[string]ty, len(s.vars)+1)
 	for k, v := range s.vars {
 		n.vars[k] = v
 	}
 	n.vars[name] = t
+	n.lvl = make(map[string]int, len(s.lvl)+1)
+	for k, v := range s.lvl {
+		n.lvl[k] = v
+	}
+	n.lvl[name] = s.level
 	return n
 }
 
 func (s scope) withErr(name string) scope {
-	n := scope{vars: s.vars, errVars: map[string]bool{name: true}, deref: s.deref}
+	n := s
+	n.errVars = map[string]bool{name: true}
 	for k := range s.errVars {
 		n.errVars[k] = true
 	}
@@ -497,6 +539,9 @@ type tr struct {
 	sites      map[*ast.CallExpr]callSite
 	siteParams []param
 	constsUsed map[string]int64
+
+	declared              map[string]bool // every name declared by the body (translate_ext.go: clash with parameters)
+	usesSystem, usesNetip bool
 }
 
 func (t *tr) fail(n ast.Node, what string) {
@@ -662,7 +707,10 @@ func (t *tr) expr(e ast.Expr, sc scope) (string, ty) {
 		t.fail(e, "literal "+e.Value)
 	case *ast.Ident:
 		if ty, ok := sc.vars[e.Name]; ok {
-			if ty == tRand || ty == tClock || ty == tErr || ty == tUnknown {
+			if ty == tShadowed {
+				t.fail(e, "use of "+e.Name+" after a nested block declared a variable of the same name")
+			}
+			if ty == tRand || ty == tClock || ty == tErr || ty == tUnknown || ty == tFn {
 				t.fail(e, "use of "+e.Name+" as a value")
 			}
 			return ln(e.Name), ty
@@ -735,6 +783,8 @@ func (t *tr) expr(e ast.Expr, sc scope) (string, ty) {
 				if x.Name == t.recv && t.recv != "" {
 					return t.field(e)
 				}
+			} else if _, opaque := opaqueStructs[sc.vars[x.Name]]; opaque {
+				return t.ipField(e, x, sc)
 			}
 		}
 		t.fail(e, "selector "+exprString(e))
@@ -852,6 +902,9 @@ func (t *tr) call(c *ast.CallExpr, sc scope) (string, ty) {
 		_ = s
 		t.fail(c, "call of "+fun+" outside `v, err := "+fun+"(…); if err != nil {…}` or `return "+fun+"(…)`")
 	}
+	if s, rt, ok := t.extCall(c, sc); ok {
+		return s, rt
+	}
 	sel, ok := c.Fun.(*ast.SelectorExpr)
 	if !ok {
 		t.fail(c, "call of "+fun)
@@ -897,6 +950,8 @@ func (t *tr) call(c *ast.CallExpr, sc scope) (string, ty) {
 		return "(" + x + " - " + arg(tTime) + ")", tDur
 	case xt == tTime && (sel.Sel.Name == "Equal" || sel.Sel.Name == "After" || sel.Sel.Name == "Before"):
 		return "(decide " + t.cond(c, sc) + ")", tBool
+	case xt == tAddr:
+		return t.addrMethod(c, sel, x, sc)
 	}
 	t.fail(c, "method call "+fun)
 	return "", tUnknown
@@ -1078,9 +1133,15 @@ func (t *tr) tuple(names []string, sc scope) (pat, typ string) {
 
 func (t *tr) declare(n ast.Node, name string, sc scope) {
 	t.checkName(n, name)
-	if _, vis := sc.vars[name]; vis {
+	if _, vis := sc.vars[name]; vis && sc.lvl[name] >= sc.level {
 		t.fail(n, fmt.Sprintf("declaration of %s shadowing a visible variable", name))
 	}
+	// (a variable of an ENCLOSING block may be shadowed: the callers poison it for what follows the
+	// nested block, translate_ext.go)
+	if t.declared == nil {
+		t.declared = map[string]bool{}
+	}
+	t.declared[name] = true
 	if name == t.recv {
 		t.fail(n, fmt.Sprintf("declaration of %s shadowing the receiver", name))
 	}
@@ -1115,7 +1176,9 @@ func (t *tr) block(list []ast.Stmt, sc scope, k func(scope) lx) lx {
 		}
 		t.fail(s, "expression statement "+exprString(s.X))
 	case *ast.BlockStmt:
-		return t.block(s.List, sc, func(scope) lx { return next(sc) })
+		return t.block(s.List, sc.nested(), func(scope) lx { return next(sc.poison(shadowedBy(sc, s))) })
+	case *ast.RangeStmt:
+		return t.unrollRange(s, sc, next)
 	case *ast.DeclStmt:
 		gd := s.Decl.(*ast.GenDecl)
 		switch gd.Tok {
@@ -1146,7 +1209,7 @@ func (t *tr) block(list []ast.Stmt, sc scope, k func(scope) lx) lx {
 			_, nilShadowed := sc.vars["nil"]
 			if ok1 && ok2 && nl.Name == "nil" && !nilShadowed && sc.vars[id.Name] == tOptStr && !sc.deref[id.Name] {
 				t.declare(id, id.Name+"_val", sc)
-				onNone := t.block(s.Body.List, sc, func(scope) lx { t.fail(s, "fallthrough"); return nil })
+				onNone := t.block(s.Body.List, sc.nested(), func(scope) lx { t.fail(s, "fallthrough"); return nil })
 				return lMatch{scrut: ln(id.Name), bind: ln(id.Name + "_val"), onNone: onNone, onSom: next(sc.withDeref(id.Name).with(id.Name+"_val", tStr))}
 			}
 		}
@@ -1220,11 +1283,14 @@ func (t *tr) assign(s *ast.AssignStmt, rest []ast.Stmt, sc scope, k func(scope) 
 				if !ok || is.Init != nil || is.Else != nil || exprString(is.Cond) != ev.Name+" != nil" || !terminates(is.Body.List) {
 					t.fail(rest[0], "statement after `"+v.Name+", "+ev.Name+" := "+exprString(c.Fun)+"(…)` (want `if "+ev.Name+" != nil { …; return … }`)")
 				}
-				onNone := t.block(is.Body.List, sc.withErr(ev.Name), func(scope) lx { t.fail(is, "fallthrough"); return nil })
+				onNone := t.block(is.Body.List, sc.withErr(ev.Name).nested(), func(scope) lx { t.fail(is, "fallthrough"); return nil })
 				onSome := t.block(rest[1:], sc.with(v.Name, tDur), k)
 				return lMatch{scrut: strip(call), bind: ln(v.Name), onNone: onNone, onSom: onSome}
 			}
 		}
+	}
+	if len(s.Lhs) == len(s.Rhs) && len(s.Lhs) >= 2 && (s.Tok == token.ASSIGN || s.Tok == token.DEFINE) {
+		return t.parallel(s, sc, next)
 	}
 	if len(s.Lhs) != 1 || len(s.Rhs) != 1 {
 		t.fail(s, "multiple assignment")
@@ -1276,8 +1342,13 @@ func (t *tr) ifStmt(s *ast.IfStmt, sc scope, next func(scope) lx) lx {
 	default:
 		els = []ast.Stmt{e}
 	}
+	in := sc.nested()
+	hidden := shadowedBy(sc, s.Body, s.Else)
 	if !hasExit(s.Body) && (s.Else == nil || !hasExit(s.Else)) {
 		// join form
+		if len(hidden) > 0 {
+			t.fail(s, "declaration of "+hidden[0]+" shadowing a visible variable in a branch without return")
+		}
 		vars := assigned(s.Body, sc)
 		if s.Else != nil {
 			for _, v := range assigned(s.Else, sc) {
@@ -1289,17 +1360,17 @@ func (t *tr) ifStmt(s *ast.IfStmt, sc scope, next func(scope) lx) lx {
 		if len(vars) == 0 {
 			// the statement has no effect; still translate it so that unsupported constructs
 			// inside are reported
-			t.block(s.Body.List, sc, func(scope) lx { return lAtom("()") })
-			t.block(els, sc, func(scope) lx { return lAtom("()") })
+			t.block(s.Body.List, in, func(scope) lx { return lAtom("()") })
+			t.block(els, in, func(scope) lx { return lAtom("()") })
 			return next(sc)
 		}
 		pat, typ := t.tuple(vars, sc)
 		out := func(scope) lx { return lAtom(pat) }
-		val := lIf{cond, t.block(s.Body.List, sc, out), t.block(els, sc, out)}
+		val := lIf{cond, t.block(s.Body.List, in, out), t.block(els, in, out)}
 		return mkLet(pat, typ, val, next(sc))
 	}
-	after := func(scope) lx { return next(sc) }
-	return lIf{cond, t.block(s.Body.List, sc, after), t.block(els, sc, after)}
+	after := func(scope) lx { return next(sc.poison(hidden)) }
+	return lIf{cond, t.block(s.Body.List, in, after), t.block(els, in, after)}
 }
 
 // desugarSwitch rewrites a switch without init/fallthrough/break into an if/else chain.
@@ -1642,7 +1713,7 @@ func translateFunc(p *pkg, spec transSpec) (defs []leanDef, err error) {
 	var inits []param
 	for _, f := range t.fd.Type.Results.List {
 		rt := goType(f.Type)
-		if rt != tErr && rt.zero() == "" {
+		if rt != tErr && rt.zero() == "" && !(len(f.Names) == 0 && (rt == tIP || rt == tAddr)) {
 			t.fail(f, "result type "+exprString(f.Type))
 		}
 		n := len(f.Names)
@@ -1703,10 +1774,17 @@ func translateFunc(p *pkg, spec transSpec) (defs []leanDef, err error) {
 	ps := append(append(append(append([]param{}, t.fieldParams()...), goParams...), t.obs...), t.pure...)
 	ps = append(ps, t.siteParams...)
 	checkDistinct(t, ps)
+	for _, q := range t.pure {
+		if t.declared[q.name] {
+			t.fail(t.fd, "local variable named like the parameter "+q.name)
+		}
+	}
+	tvs := typeVars(ps, resT)
+	t.checkImports(t.usesSystem || strings.Contains(tvs, "IPRec"), t.usesNetip || strings.Contains(tvs, "Addr"))
 
 	var sb strings.Builder
 	sb.WriteString(t.header("func "+docSafe(funcSig(t.fd)), ps))
-	sb.WriteString("def " + spec.lean + binders(ps) + " : " + resT + " :=\n")
+	sb.WriteString("def " + spec.lean + tvs + binders(ps) + " : " + resT + " :=\n")
 	emit(&sb, body, "  ")
 	defs = append(defs, leanDef{spec.lean, strings.TrimRight(sb.String(), "\n")})
 
